@@ -17,3 +17,37 @@ REGISTRY = {
         "note": _NOTE + "n=1 with normalize (0/0) is outside the statement.",
     },
 }
+
+REGISTRY.update({
+    "C01": {
+        "level": "Every generated pair of diagrams is judged against the definition itself (minimum over all partial matchings, brute force, <= 5 points "
+                 "per diagram), an independent reference algorithm (threshold search + one-sided scipy matchings, self-checked against the brute force) up "
+                 "to 30 points, and one complete finite slice (all 23409 ordered pairs of <= 2-point multisets on a 16-point lattice). Generators are aimed "
+                 "at ties, duplicates, diagonal points, every empty form and 13 decimal scales; each of the 16 shard processes runs under its own "
+                 "PYTHONHASHSEED and one clause feeds identical cases to all 16. Exploration is the right level: optimality over all inputs has no finite "
+                 "certificate, but on each explored input the verdict is exact.",
+        "technique": "property-based testing (Hypothesis) against brute-force definition + differential reference; exhaustive enumeration of a small lattice slice",
+        "note": _NOTE + "Hash seeds 0..15 only. A defect that needs > 30 points is only reachable through C07's differential clause.",
+    },
+    "C02": {
+        "level": "Same design as C01 with Euclidean / (d-b)/sqrt2 costs: brute-force minimum over all partial matchings (<= 5 points), LP reference (HiGHS) up to "
+                 "25 points self-checked against the brute force, exhaustive 23409-pair lattice slice, infinite-death handling with warning attribution.",
+        "technique": "property-based testing (Hypothesis) against brute-force definition + LP differential reference; exhaustive enumeration of a small lattice slice",
+        "note": _NOTE + "Comparison tolerance 1e-9 * sum |coordinates|.",
+    },
+    "C06": {
+        "level": "A validity predicate (not a fixed expected matching) is evaluated on every matching returned for generated pairs of 0..8 points under 16 hash "
+                 "seeds: index coverage, -1 conventions, per-row cost recomputed from the input points, max/sum equals the reported distance, the distance "
+                 "equals the one returned without the flag and (when enumerable) the brute-force optimum.",
+        "technique": "property-based testing (Hypothesis) with a certificate-validity predicate + brute-force optimum",
+        "note": _NOTE + "Finite diagrams only, as the statement says.",
+    },
+    "C07": {
+        "level": "Metamorphic laws (zero on reorderings, symmetry, non-negativity, triangle inequality, diagonal-point / translation / scaling invariance, "
+                 "closed forms against the empty diagram, d_B <= d_W) on diagrams of up to 60 (quick) / 200 (thorough) points, plus a differential value "
+                 "oracle (independent bottleneck reference, LP Wasserstein) at sizes brute force cannot reach. Exploration: the laws quantify over all "
+                 "triples; no finite slice is complete.",
+        "technique": "property-based testing (Hypothesis): metamorphic relations + differential reference at size",
+        "note": _NOTE + "Sizes bounded by the cost of persim's pure-Python bottleneck.",
+    },
+})
